@@ -254,6 +254,12 @@ func drawIdxList(t *rapid.T, n int, label string) []int {
 		}
 	}
 	extra := rapid.SliceOfN(rapid.IntRange(0, n+2), 0, 3).Draw(t, label+"extra")
+	if n > 16 { // duplicates of a few members, many times over (a duplicate must never add weight)
+		who := rapid.IntRange(0, n-1).Draw(t, label+"dupwho")
+		for k := rapid.IntRange(0, 70).Draw(t, label+"dups"); k > 0; k-- {
+			extra = append(extra, who)
+		}
+	}
 	return append(out, extra...)
 }
 
@@ -261,6 +267,9 @@ func TestC06Random(t *testing.T) {
 	col := ev.Get("C06")
 	rapid.Check(t, func(t *rapid.T) {
 		n := rapid.IntRange(1, 16).Draw(t, "n")
+		if rapid.IntRange(0, 5).Draw(t, "large") == 0 { // committees beyond 64 members (word-size assumptions)
+			n = rapid.IntRange(60, 140).Draw(t, "nlarge")
+		}
 		ws := make([]uint64, 0, n)
 		var tot big.Int
 		for i := 0; i < n; i++ {
